@@ -66,6 +66,16 @@ def gen_actor(rng, max_iters=120, dims=(1, 2, 3, 4, 5), families=None, shipped_p
         spec["upper"] = upper
         if btype != "float_array":
             spec["bounds_type"] = btype
+    # ways user code writes the same configuration (none of them changes what is configured)
+    u = rng.random()
+    if u < 0.06:
+        spec["params_set"] = "attr"            # SolverParameters() first, public fields assigned afterwards
+    elif u < 0.10:
+        spec["density_type"] = rng.choice(["np.int64", "np.int32"])     # density taken from a numpy array / rng.integers
+    if rng.random() < 0.04:
+        spec["holder"] = "new"                 # objective returns its value in a new FunctionValue
+    if lower is not None and rng.random() < 0.04:
+        spec["start_point"] = [l + (h - l) * float("%.3g" % rng.random()) for l, h in zip(lower, upper)]
     return spec
 
 
@@ -119,6 +129,8 @@ def gen_evq(rng, aid, spec):
         return {"a": aid, "op": "evq", "q": "image", "x": x}
     y = [l + (h - l) * rng.random() for l, h in zip(lower, upper)]
     how = rng.choice(["array", "list", "f32"])
+    if rng.random() < 0.25:
+        return {"a": aid, "op": "evq", "q": rng.choice(["inverse", "preimages"]), "as": "best"}
     if rng.random() < 0.4 and all(math.ceil(l) <= math.floor(h) for l, h in zip(lower, upper)):
         y = [rng.randint(math.ceil(l), math.floor(h)) for l, h in zip(lower, upper)]
         how = rng.choice(["int_list", "int_array"])
